@@ -492,7 +492,12 @@ def run(ck):
                     # progress: R6.2s; libc calls inside: cursor-relative strspn, or the once-only first-octet test
                     for nm, c in inner:
                         eng = cfgpaths.Engine(tu, fname); a0 = eng.render(c['inner'][1], cfgpaths.Path())
-                        if a0 == 'cp': continue
+                        # the searched pointer is the loop's own advancing cursor (whatever it is called): it is stepped in the loop
+                        stepped = set()
+                        for w in astutil.walk(l):
+                            if w.get('kind') == 'UnaryOperator' and w.get('opcode') in ('++',) and astutil.strip(w['inner'][0]).get('kind') == 'DeclRefExpr': stepped.add(astutil.strip(w['inner'][0])['referencedDecl']['name'])
+                            if w.get('kind') == 'CompoundAssignOperator' and w.get('opcode') == '+=' and astutil.strip(w['inner'][0]).get('kind') == 'DeclRefExpr': stepped.add(astutil.strip(w['inner'][0])['referencedDecl']['name'])
+                        if re.fullmatch(r'\w+', a0) and a0 in stepped and a0 not in tu.params(fname): continue
                         if fname == 'is_ipv4' and nm == 'strspn' and a0 == 'start' and guarded_once(tu, fname, c): continue
                         ok = False; why = f'{nm}({a0}, ...) inside the scanning loop rescans from a fixed position on every iteration'
                 else:
